@@ -134,6 +134,24 @@ DAMAGED_NAMES = ["sklearn.ensemble._hist_gradient_boosting.gradient_boosting!", 
 PROMPT_S = 15.0      # a single call on a few-kB archive takes milliseconds; the alarm (HANG) is at 30 s
 
 
+def zip_directory_mutations(data):
+    """central-directory records (signature PK\\x01\\x02): CRC at +16, compressed size at +20, uncompressed size at +24, local header
+    offset at +42 -- each of them raised / lowered, one field of one record at a time"""
+    import struct
+    out = []
+    pos = data.find(b"PK\x01\x02")
+    while pos != -1 and len(out) < 64:
+        for off in (16, 20, 24, 42):
+            (v,) = struct.unpack_from("<I", data, pos + off)
+            for nv in (v + 65536, v + 1, max(v - 1, 0), 0xFFFFFFF0):
+                if nv != v:
+                    b = bytearray(data)
+                    struct.pack_into("<I", b, pos + off, nv & 0xFFFFFFFF)
+                    out.append(bytes(b))
+        pos = data.find(b"PK\x01\x02", pos + 4)
+    return out
+
+
 def probe_cases(snap):
     """fixed witness of the open finding D03/C19: a schema edit of one string makes load() call numpy.random.seed()"""
     J = lambda v: {"__class__": "str", "__module__": "builtins", "__loader__": "JsonNode", "content": json.dumps(v), "is_json": True}
@@ -232,6 +250,11 @@ def run(R, only_cases=None):
                 for d in json.loads(p2.stdout):
                     if d:
                         for m in npy_header_mutations(bytes.fromhex(d)):
+                            bcases.append({"hex": m.hex()})
+                            nhdr += 1
+                        # the zip directory lies about a member: each size / offset / CRC field of each central-directory record
+                        # moved up or down (the member data stays valid)
+                        for m in zip_directory_mutations(bytes.fromhex(d)):
                             bcases.append({"hex": m.hex()})
                             nhdr += 1
             R.notes["npy_header_mutations"] = nhdr
